@@ -17,7 +17,7 @@ TIMESTAMPS_BAD = ["", "2020", "2020-07-13", "2020-07-13T05:46:45", "2020-07-13 0
                   "2020-01-01Ť 00:00:00Z", "2020-01-01T00:00:0Z0", "2020-01-01T00:00:00Z\x00", "-020-01-01T00:00:00Z", "+2020-01-01T00:00:00Z", "2020-1 -1T1:1:1Z",
                   "2020-01-01T 1:01:01Z", "2020-01-01T1 :01:01Z"]
 
-KINDS = [None, True, False, 0, 1, -1, 2, 1.0, 1.5, 0.5, float("inf"), float("-inf"), float("nan"), -0.0, float(2**53), 10**400, -10**400, "", "root", "key_mgr", "x", "1",
+KINDS = [None, True, False, 0, 1, -1, 2, 1.0, 1.5, 0.5, float("inf"), float("-inf"), float("nan"), -0.0, float(2**53), 10**400, -10**400, "", "root", "key_mgr", "pkg_mgr", "channeler", "x", "1",
          [], {}, ["root"], [1], {"root": 1}, {"pubkeys": [], "threshold": 1}, "2020-07-13T05:46:45Z", "ab" * 32, ["ab" * 32], "é", "\ud800"]
 
 
@@ -84,6 +84,14 @@ def mutations(rng, doc, per_path: int = 3, max_total: int = 400):
         for new in (rng.sample(novel, min(2, len(novel))) if novel else []):
             if not proto.deep_equal(old, new):
                 out.append((gen.set_path(doc, p, new), "replace-mined:" + name))
+        if isinstance(old, dict) and p == ("signatures",):
+            # what the unsigned signature map is indexed by is nobody's business as long as every *value* is a well-formed entry: an entry repeated under another
+            # spelling of its index (upper case, blanks, 0x), under junk, under the empty string — the document stays well formed
+            some = next(iter(old.values()), {"signature": "ab" * 64})
+            k0 = next(iter(old), gen.key(9).hex)
+            for alt in [k0.upper(), " " + k0, k0 + " ", "0x" + k0, k0[:32] + " " + k0[32:], "", "junk", k0[:-1], "\u00e9"]:
+                if alt not in old:
+                    out.append((gen.set_path(doc, p, {**old, k0: some, alt: some}), "signature-index-respelled:" + name))
         if isinstance(old, dict):
             out.append((gen.set_path(doc, p, {**old, "extra_field": 1}), "extra-field:" + name))
             for k in [x for x in novel if isinstance(x, str)][:3]:
